@@ -6,15 +6,16 @@ rows = [json.loads(l) for l in open(os.path.join(V, "refactors", "logic_eval.jso
 out = ["| change | kind | printed definitions that changed | fell back (not translatable) | bridging / build failures | verdict of the tie alone |", "|---|---|---|---|---|---|"]
 for r in rows:
     name = r["name"]
-    kind = "refactoring (harmless)" if name.startswith("rf") else "seeded defect"
+    harmless = name.startswith("rf") or re.fullmatch(r"h[A-Z]", name) is not None
+    kind = "refactoring (harmless)" if harmless else ("hand-made defect inside the fragment" if re.fullmatch(r"m[A-Z]", name) else "seeded defect")
     un = "; ".join(u.split(": ", 1)[0].split(".")[-1] + " (" + u.split(": ", 1)[1][:50] + ")" for u in r.get("unavailable", []))
     failed = ", ".join(m.replace("P0f.", "") for m in r.get("failed_modules", []))
     if failed:
-        verdict = "ALARM (obligation broken)" + (" - false alarm" if name.startswith("rf") else "")
+        verdict = "ALARM (obligation broken)" + (" - false alarm" if harmless else "")
     elif r.get("unavailable"):
         verdict = "quiet - tie falls back to the correspondence"
     elif r.get("files_changed"):
-        verdict = "quiet - printed definition changed, bridging proofs still hold" + ("" if name.startswith("rf") else " (the defect is outside the translated logic or equivalent on it)")
+        verdict = "quiet - printed definition changed, bridging proofs still hold" + ("" if harmless else " (the defect is outside the translated logic or equivalent on it)")
     else:
         verdict = "quiet - no translated function touched"
     out.append(f"| `{name}` | {kind} | {', '.join(f.replace('.lean','') for f in r.get('files_changed', []))} | {un} | {failed} | {verdict} |")
@@ -22,4 +23,18 @@ p = os.path.join(V, "DESIGN.md")
 s = open(p).read()
 s = re.sub(r"<!-- logic-table-begin -->.*?<!-- logic-table-end -->", "<!-- logic-table-begin -->\n" + "\n".join(out) + "\n<!-- logic-table-end -->", s, flags=re.S)
 open(p, "w").write(s)
-print(len(rows), "rows")
+import collections
+c = collections.Counter()
+for r in rows:
+    name = r["name"]
+    harmless = name.startswith("rf") or re.fullmatch(r"h[A-Z]", name) is not None
+    if r.get("failed_modules"):
+        k = "alarm"
+    elif r.get("unavailable"):
+        k = "fallback"
+    elif r.get("files_changed"):
+        k = "re-proved"
+    else:
+        k = "untouched"
+    c[("harmless" if harmless else "defect", k)] += 1
+print(len(rows), "rows", dict(c))
